@@ -266,29 +266,38 @@ def judge(mode, data, reqs, faulty, latching):
         return 'pause(%r) chunks %r sum to %d' % (n, durs, sum(durs))
     if mode == 'menable':
         c1, c2 = data
-        rest = list(reqs)
-        one_only = (c1 == 0) != (c2 == 0)
-        want_final = 'EM,%d,%d' % (c1, c2)
-        if faulty and latching:
-            # any prefix of a legal sequence
-            legal = legal_menable(c1, c2)
-            if any(rest == s[:len(rest)] for s in legal):
-                return None
-            return 'sent %r, no documented sequence %r starts like this' % (reqs, legal)
-        if rest in legal_menable(c1, c2):
-            return None
-        return 'sent %r, documented %r' % (reqs, legal_menable(c1, c2))
+        return menable_judge(c1, c2, list(reqs), faulty and latching)
     return 'unknown mode'
 
 
-def legal_menable(c1, c2):
-    head = ['CU,50,0'] if (c1 == 0) != (c2 == 0) else []
-    final = ['EM,%d,%d' % (c1, c2)]
-    mids = [[]]
+def menable_judge(c1, c2, reqs, prefix_ok):
+    """EBB3 motors_enable: the last command is EM,c1,c2.  Before it, and in no prescribed order among
+    themselves (the documentation fixes none): CU,50,0 exactly when one motor only is enabled; and, when only
+    motor 2 is enabled, optionally the enable query QE and the resolution pre-set EM,c2,c2 (the pre-set not
+    before the query, if both appear).  Nothing else, nothing twice."""
+    one_only = (c1 == 0) != (c2 == 0)
+    final = 'EM,%d,%d' % (c1, c2)
+    before = set()
+    if one_only:
+        before.add('CU,50,0')
+    pre = None
     if c1 == 0 and c2 != 0:
         pre = 'EM,%d,%d' % (c2, c2)
-        mids = [[], ['QE'], ['QE', pre], [pre]]
-    return [head + m + final for m in mids]
+        before |= {'QE', pre}
+    doc = 'documented: %s then %s' % (sorted(before) or 'nothing', final)
+    body = reqs[:-1] if (reqs and reqs[-1] == final) else reqs
+    complete = bool(reqs) and reqs[-1] == final
+    if len(set(body)) != len(body) or any(r not in before for r in body):
+        return 'sent %r; %s' % (reqs, doc)
+    if pre in body and 'QE' in body and body.index(pre) < body.index('QE'):
+        return 'sent %r: resolution pre-set before the query that decides whether it is needed' % (reqs,)
+    if complete:
+        if one_only and 'CU,50,0' not in body:
+            return 'sent %r without CU,50,0 although only one motor is enabled; %s' % (reqs, doc)
+        return None
+    if prefix_ok:
+        return None
+    return 'sent %r; %s' % (reqs, doc)
 
 
 def check(scn, hist):
@@ -720,6 +729,10 @@ def build(world, reqs, no_port=False, unconnected=False, swaps=None, pre=None):
         for layer, fn, a, k in group:
             nojudge = bool(k.get('_nojudge'))
             k = {x: y for x, y in k.items() if x != '_nojudge'}
+            if (layer == 'legacy' and list(k) == ['verbose'] and fn in LEGACY_SIG and
+                    len(a) == len(LEGACY_SIG[fn][0]) - 1 and len(LEGACY_SIG[fn][1]) == 1 and (pair + len(a)) % 2 == 0):
+                a = list(a) + [k['verbose']]          # verbose handed over positionally (no optional before it)
+                k = {}
             if layer == 'legacy':
                 op = lcall('ebb_motion.' + fn, [None if no_port else {'slot': 0}] + list(a), k)
             else:
